@@ -717,3 +717,155 @@ Example sample_lex : lex_string (quote sample_value) = Some sample_value.
 Proof. vm_compute. reflexivity. Qed.
 Example sample_lex_raw : lex_string (quote_raw sample_value) = Some sample_value.
 Proof. vm_compute. reflexivity. Qed.
+
+(* ------------------------------------------------------------------------------------------ *)
+(* unknown escapes, for every rune: a backslash followed by a character that is not an escape letter keeps the
+   backslash AND the whole character (all bytes of its UTF-8 encoding) *)
+
+(* the escape letters of readString: quote, double quote, backslash, n t r 0 a b f v e x *)
+Definition escape_letter (c : N) : bool :=
+  existsb (N.eqb c) [39; 34; 92; 110; 116; 114; 48; 97; 98; 102; 118; 101; 120]%N.
+
+Lemma escape_switch_default : forall (l : plex) b c, l_ch l = c -> escape_letter c = false ->
+  escape_switch pure_stream false l b = (l, wr c (wr 92%N b), true).
+Proof.
+  intros l b c C H. unfold escape_letter in H. cbn [existsb] in H.
+  repeat (apply orb_false_iff in H; destruct H as [? H]).
+  unfold escape_switch. rewrite C.
+  repeat match goal with Q : (c =? ?k)%N = false |- _ => rewrite Q; clear Q end.
+  cbn [andb]. reflexivity.
+Qed.
+
+(* ASCII: '\c' for c not an escape letter denotes the two bytes \ c   (c = NUL included) *)
+Theorem unknown_escape_ascii : forall c, (c < 128)%N -> escape_letter c = false -> piece_ok [92%N; c] [92%N; c].
+Proof.
+  intros c Hc Hk l b s H. cbn [app] in H.
+  destruct (At_ascii l _ _ H ltac:(lia)) as (E & C & S).
+  pose proof (rc_ascii l _ _ H ltac:(lia)) as H1.
+  destruct (At_ascii (rc l) _ _ H1 Hc) as (E1 & C1 & S1).
+  exists (rc (rc l)). split; [|eapply rc_ascii; eassumption].
+  unfold quoted_body. rewrite E, C. cbn [N.eqb Pos.eqb]. rewrite E1.
+  rewrite (escape_switch_default (rc l) b c C1 Hk). rewrite wr_ascii by exact Hc. rewrite wr_ascii by lia.
+  reflexivity.
+Qed.
+
+(* a well-formed multi-byte character p after the backslash: the value gets \ followed by ALL bytes of p *)
+Theorem unknown_escape_rune : forall p, 1 < snd (decode_rune p) -> snd (decode_rune p) = length p ->
+  piece_ok (92%N :: p) (92%N :: p).
+Proof.
+  intros p Hw Hlen l b s H. cbn [app] in H.
+  destruct (At_ascii l _ _ H ltac:(lia)) as (E & C & S).
+  pose proof (rc_ascii l _ _ H ltac:(lia)) as H1.
+  assert (Hdec : decode_rune (p ++ s) = decode_rune p).
+  { clear - Hw Hlen. unfold decode_rune in *.
+    destruct p as [|p0 [|b1 [|b2 [|b3 [|b4 t]]]]]; cbn [app] in *;
+    repeat match goal with
+           | H : context [if ?c then _ else _] |- _ => destruct c eqn:?
+           end; cbn in *; try lia; try reflexivity. }
+  destruct H1 as (E1 & C1 & S1).
+  assert (Hne : p <> []) by (intros ->; cbn in Hw; lia).
+  assert (E1' : l_eof (rc l) = false) by (rewrite E1; destruct p; [contradiction|reflexivity]).
+  assert (C1' : l_ch (rc l) = fst (decode_rune p)).
+  { rewrite C1, Hdec. destruct p; [contradiction|reflexivity]. }
+  assert (S1' : l_src (rc l) = s).
+  { rewrite S1, Hdec, Hlen. rewrite skipn_app, skipn_all, Nat.sub_diag. reflexivity. }
+  pose proof (decode_multibyte_rune p Hw) as Hr.
+  exists (rc (rc l)). split.
+  - unfold quoted_body. rewrite E, C. cbn [N.eqb Pos.eqb]. rewrite E1'.
+    assert (Hk : escape_letter (fst (decode_rune p)) = false).
+    { unfold escape_letter. cbn [existsb].
+      repeat match goal with |- context [(?r =? ?k)%N] =>
+               let Q := fresh "Q" in destruct (r =? k)%N eqn:Q; [apply N.eqb_eq in Q; lia|]
+             end. reflexivity. }
+    rewrite (escape_switch_default (rc l) b _ C1' Hk).
+    unfold wr at 1. rewrite encode_decode by exact Hw. rewrite Hlen, firstn_all.
+    rewrite wr_ascii by lia. rewrite rev_append_rev. cbn [rev]. rewrite <- !app_assoc. reflexivity.
+  - rewrite <- S1'. apply rc_At. exact E1'.
+Qed.
+
+(* an INVALID byte after the backslash (no well-formed sequence starts there): the lexer reads U+FFFD, so the
+   value gets \ EF BF BD and the byte itself is lost (a raw invalid byte is lost in the same way, see
+   raw_invalid_byte_is_lost; that is why [quote] spells such bytes \xHH) *)
+Theorem invalid_byte_after_backslash : forall x s (l : plex) b, (128 <= x)%N ->
+  snd (decode_rune (x :: s)) = 1 -> At l (92%N :: x :: s) ->
+  qbody (l, b) = ((rc (rc l), [189; 191; 239; 92]%N ++ b), true) /\ At (rc (rc l)) s.
+Proof.
+  intros x s l b Hx Hw H.
+  destruct (At_ascii l _ _ H ltac:(lia)) as (E & C & S).
+  pose proof (rc_ascii l _ _ H ltac:(lia)) as H1.
+  destruct H1 as (E1 & C1 & S1). cbv iota in E1, C1.
+  assert (Hr : fst (decode_rune (x :: s)) = rune_error).
+  { clear - Hx Hw. unfold decode_rune in *.
+    repeat match goal with
+           | H : context [if ?c then _ else _] |- _ => destruct c eqn:?
+           | H : context [match ?t with [] => _ | _ :: _ => _ end] |- _ => destruct t
+           end; cbn in *; try lia; try reflexivity. }
+  rewrite Hr in C1. rewrite Hw in S1. cbn [skipn] in S1.
+  split.
+  - unfold quoted_body. rewrite E, C. cbn [N.eqb Pos.eqb]. rewrite E1.
+    rewrite (escape_switch_default (rc l) b rune_error C1 eq_refl). reflexivity.
+  - rewrite <- S1. apply rc_At. exact E1.
+Qed.
+
+(* whole strings:  ' v1 \ p v2 '  with v1, v2 quoted byte-wise and p a well-formed multi-byte character, or an ASCII
+   character that is not an escape letter, denotes  v1 ++ \ ++ p ++ v2 *)
+Definition kept_escape (p : list N) : Prop :=
+  (1 < snd (decode_rune p) /\ snd (decode_rune p) = length p) \/
+  (exists c, p = [c] /\ (c < 128)%N /\ escape_letter c = false).
+
+Theorem tokenize_unknown_escape : forall v1 p v2, bytes_ok v1 -> bytes_ok v2 -> kept_escape p ->
+  exists e, tokenize (39%N :: quote_body v1 ++ 92%N :: p ++ quote_body v2 ++ [39%N]) =
+    Some [mk_item T_STRING (v1 ++ 92%N :: p ++ v2) {| p_off := 1; p_line := 1; p_col := 1 |} false; e]
+    /\ it_tok e = T_EOF /\ it_val e = [].
+Proof.
+  intros v1 p v2 H1 H2 Hp.
+  set (pieces := byte_pieces v1 ++ [(92%N :: p, 92%N :: p)] ++ byte_pieces v2).
+  assert (Hok : Forall (fun po => piece_ok (fst po) (snd po)) pieces).
+  { unfold pieces. apply Forall_app. split; [apply byte_pieces_ok; exact H1|].
+    apply Forall_app. split; [|apply byte_pieces_ok; exact H2].
+    constructor; [|constructor]. cbn [fst snd].
+    destruct Hp as [[Hw Hl]|(c & -> & Hc & Hk)]; [apply unknown_escape_rune; assumption|apply unknown_escape_ascii; assumption]. }
+  assert (Hsrc : flat_map fst pieces = quote_body v1 ++ 92%N :: p ++ quote_body v2).
+  { unfold pieces. rewrite !flat_map_app, !byte_pieces_src. cbn [flat_map fst]. rewrite app_nil_r. reflexivity. }
+  assert (Hout : flat_map snd pieces = v1 ++ 92%N :: p ++ v2).
+  { unfold pieces. rewrite !flat_map_app, !byte_pieces_out. cbn [flat_map snd]. rewrite app_nil_r. reflexivity. }
+  assert (Hpl : length pieces = length v1 + 1 + length v2).
+  { unfold pieces, byte_pieces. rewrite !app_length, !map_length. cbn [length]. lia. }
+  replace (39%N :: quote_body v1 ++ 92%N :: p ++ quote_body v2 ++ [39%N])
+    with (39%N :: flat_map fst pieces ++ [39%N]).
+  2:{ rewrite Hsrc. rewrite <- !app_assoc. cbn [app]. rewrite <- !app_assoc. reflexivity. }
+  rewrite <- Hout.
+  apply tokenize_reads; [|eexists; reflexivity|].
+  - intros rest F fuel l H Hf. cbn [app] in H. rewrite <- app_assoc in H. cbn [app] in H.
+    apply read_string_pieces; try assumption.
+    rewrite Hout in Hf. rewrite !app_length in Hf. cbn [length] in Hf. rewrite app_length in Hf. lia.
+  - cbn [length]. rewrite app_length. cbn [length]. rewrite Hout, Hsrc.
+    rewrite !app_length. cbn [length]. rewrite !app_length.
+    pose proof (quote_body_length v1). pose proof (quote_body_length v2). lia.
+Qed.
+
+(* instances, by computation: 'a\éb' (2 bytes), 'a\€b' (3 bytes), 'a\😀b' (4 bytes), and an invalid byte *)
+Example unknown_escape_2 : lex_string [39; 97; 92; 195; 169; 98; 39]%N = Some [97; 92; 195; 169; 98]%N.
+Proof. vm_compute. reflexivity. Qed.
+Example unknown_escape_3 : lex_string [39; 97; 92; 226; 130; 172; 98; 39]%N = Some [97; 92; 226; 130; 172; 98]%N.
+Proof. vm_compute. reflexivity. Qed.
+Example unknown_escape_4 : lex_string [39; 97; 92; 240; 159; 152; 128; 98; 39]%N = Some [97; 92; 240; 159; 152; 128; 98]%N.
+Proof. vm_compute. reflexivity. Qed.
+Example unknown_escape_invalid : lex_string [39; 97; 92; 255; 98; 39]%N = Some [97; 92; 239; 191; 189; 98]%N.
+Proof. vm_compute. reflexivity. Qed.
+Example unknown_escape_truncated : lex_string [39; 97; 92; 195; 98; 39]%N = Some [97; 92; 239; 191; 189; 98]%N.
+Proof. vm_compute. reflexivity. Qed.
+
+(* the same rule in back-quoted identifiers; in double-quoted identifiers a backslash is dropped and the character
+   after it is kept whole *)
+Definition lex_ident (srcb : list N) : option (list N) :=
+  match tokenize srcb with
+  | Some [s; e] => if (it_tok s =? T_IDENT)%N && (it_tok e =? T_EOF)%N then Some (it_val s) else None
+  | _ => None
+  end.
+Example backtick_unknown_escape : lex_ident [96; 97; 92; 195; 169; 98; 96]%N = Some [97; 92; 195; 169; 98]%N.
+Proof. vm_compute. reflexivity. Qed.
+Example backtick_unknown_escape_4 : lex_ident [96; 92; 240; 159; 152; 128; 96]%N = Some [92; 240; 159; 152; 128]%N.
+Proof. vm_compute. reflexivity. Qed.
+Example dquoted_backslash_rune : lex_ident [34; 97; 92; 195; 169; 98; 34]%N = Some [97; 195; 169; 98]%N.
+Proof. vm_compute. reflexivity. Qed.
